@@ -36,6 +36,19 @@ def main():
     if os.path.exists(ep):
         with open(ep) as fh:
             expect = json.load(fh)
+    # obligation -> unit that declares it (unit ids are not always the obligation's prefix)
+    obl2unit = {}
+    try:
+        sys.path.insert(0, os.path.join(VERIF, "vlib"))
+        import driver
+        for u in driver.load_property(pid).get("unit", []):
+            for h in u.get("harness", []):
+                for o in h.get("obligations", []):
+                    obl2unit[o] = u["id"]
+            for o in u.get("obligation", []):
+                obl2unit[o["name"]] = u["id"]
+    except Exception:
+        pass
     root = "/var/tmp/verif-mut-%s-%d" % (pid, os.getpid())
     work = os.path.join(root, "repo")
     scratch = os.environ.get("VERIF_SCRATCH") or os.path.join(root, "scratch")
@@ -65,7 +78,7 @@ def main():
             want = expect.get(name, [])
             # only the units whose obligations are expected to notice this mutant are run
             # (unit id = obligation name minus its last component); no expectation => whole property
-            units = sorted({".".join(o.split(".")[:-1]) for o in want})
+            units = sorted({obl2unit.get(o, ".".join(o.split(".")[:-1])) for o in want})
             cmd = [os.path.join(VERIF, "check"), pid, tier] + (["--unit", ",".join(units)] if units else [])
             r = subprocess.run(cmd, cwd=VERIF, env=env, capture_output=True, text=True)
             refuted = []
